@@ -8,6 +8,12 @@ COMMON_TB = [
     "the correspondence is sampling: model = code is shown on the cases run, not for all inputs",
 ]
 
+PROPS_HIST_RULE = ("histories over the full C01 alphabet generated while running (edit/revert source, edit rules incl. invalid files, build, goal build, clean, goal clean, "
+ "tamper, delete target, delete cache entry, delete ruler directory or parts, chmod), 260 quick / 4000 thorough, graphs of 1..6 (9) rules with multi-target rules, "
+ "transitive edges, commands in a mini-language (constant, copy, concatenation with tags from a small pool so equal contents are common, chmod), a quarter with failing rules "
+ "and missing leaves; corpus cases first. After every op the implementation's verdict, executed script lines, status lines, workspace, cache listing, decoded "
+ "history files and file-state table are compared with the model (only the columns this property reads). Distinct by hash of the history; non-trivial = contains a successful build.")
+
 PROPS = {
     "C15": {
         "level": "proof",
@@ -229,5 +235,16 @@ PROPS = {
         "rule": "histories over the full C01 alphabet generated while running (edit/revert source, edit rules incl. invalid files, build, goal build, clean, goal clean, tamper, delete target, delete cache entry, delete ruler directory or parts, chmod), 260 quick / 4000 thorough, graphs of 1..6 (9) rules with multi-target rules, transitive edges, commands in a mini-language (constant, copy, concatenation with tags from a small pool so equal contents are common, chmod), a quarter with failing rules and missing leaves; corpus cases first. After every op the implementation's verdict, executed script lines, status lines, workspace, cache listing, decoded history files and file-state table are compared with the model (only the columns this property reads). Distinct by hash of the history; non-trivial = contains a successful build." + " Plus every explored schedule of suite sched. Monitor: each banner is checked against the rename / command log of the same build (Built iff the rule's command ran, Recovered iff moved in from the cache, Up-to-date iff untouched), exactly one line per target of finished rules, none for blocked rules.",
         "trusted_base": COMMON_TB + ["the recording Printer of the harness"],
         "assumptions": ["reading 7.5: Built iff the command ran, else Recovered iff moved in, else Up-to-date", "theorems about status_lines / handle_rule / build in coq/Model; tied to build.rs by the status column"],
+    },
+    "C01": {
+        "level": "proof",
+        "suites": ["hist"],
+        "columns": ["verdict", "files"],
+        "rule": PROPS_HIST_RULE + " Monitor: after every successful build (whole or goal-restricted) every in-scope target is compared with an evaluator written independently of ruler (own dependency order, own interpreter of the command mini-language) that computes the from-scratch contents from the current source files.",
+        "trusted_base": COMMON_TB + ["hash collision freedom idealised (free symbolic hashes; generic theorems take injectivity hypotheses)", "directories not modelled"],
+        "assumptions": [
+            "commands deterministic in every build of the history (det_history: write only own targets, read only declared sources) — needed for the whole history, shown by a refutation; fine clock starting above 0",
+            "theorems about coq/Model/Build.v against coq/Model/Ideal.v under the serial schedule; other schedules by C06; tied to the code by the history suite (verdict and workspace columns)",
+        ],
     },
 }
